@@ -34,7 +34,7 @@ theorem group_end2 {N0 T T' : Q} {s s1 : BState} {g1 : GState} {σ σ1 : St} {L1
         obtain ⟨a1, a2⟩ := a
         obtain ⟨b1, b2⟩ := b
         exact stepEvent_names ha hst) _ _ _ hnames hm
-  refine ⟨hsim1, ⟨hns, ?_, ?_, ?_, ?_, ?_, ?_, hrel, hlen, hkeys, hok1, hnames1, ?_, hinv.n0le, ?_, hinv.dNew, ?_,
+  refine ⟨hsim1, ⟨Or.inl hns, ?_, ?_, ?_, ?_, ?_, ?_, hrel, hlen, hkeys, hok1, hnames1, ?_, hinv.n0le, ?_, hinv.dNew, ?_,
     hinv.pulses, ?_⟩⟩
   · rw [hlink]; exact pos1
   · rw [hlink]; exact hinv.ub
@@ -172,29 +172,18 @@ theorem foldOps_own_fixed_q (r : Nat) : ∀ (ops : List MOp) (f : RowF), OwnOps 
     · exact hhead hne
     · exact ih f ho' (fun x hx => hq x (List.mem_cons_of_mem _ hx)) hf hr hle o' ho'' hne
 
-/-- **the first time group, at time 0.**  From the initial state (every deme starts at `∞` and has
-its only epoch end at 0, no pulse, no movement recorded): after a group at time 0 that satisfies the
-first two clauses of `GoodGroup`, either the Builder state is marked (`ZeroMark`: `from_ms` will
-fail), or the invariant of the run holds: nothing was written, nothing was recorded. -/
-theorem first_group_zero {N0 : Q} {s s' : BState} {σ σ' : St} {evs : List (Event Num)}
-    (hsim : SizeSim 0 s σ) (hnames : NameInv s)
-    (hall : ∀ e ∈ evs, HasCmd e) (hne : evs ≠ []) (htime : ∀ e ∈ evs, 4 * N0 * (cmdOfD e).t = 0)
-    (hns : NSAT (groupOps s.numDemes (evs.map cmdOfD))) (hfr : ∀ e ∈ evs, FracOK (cmdOfD e))
+/-- **the first time group, at time 0**, from the facts at the end of its options: if the Builder state after the
+group is not marked (`ZeroMark`), nothing was written and nothing was recorded -/
+theorem first_group_zero_core {s : BState} {σ σ' σ1 : St} {s1 : BState} {g1 : GState} {L1 : List (Nat × Row)}
+    {ops : List MOp} {mv : Bool}
+    (hsim : SizeSim 0 s σ) (hsim1 : SizeSim 0 s1 σ1) (he : GroupEnd 0 s σ s1 g1 L1 ops)
     (hinit : ∀ (j : Nat) (d : BDeme), s.demes[j]? = some d → d.startTime = .inf ∧ bEndTime d = 0)
     (hpul : s.pulses.getD [] = []) (hmv0 : σ.moves = [])
-    (hm : Ms.stepGroup N0 s evs = .ok s') (hs : Spec.MsSem.stepGroup N0 σ (evs.map cmdOfD) = .ok σ') :
-    (MovesInv 0 s' σ' ∧ ∀ o ∈ groupOps s.numDemes (evs.map cmdOfD),
-        o.2.2 ≠ 1 ∧ (o.1 ≤ s.numDemes → o.2.1 ≠ o.1 → o.2.2 = 0)) ∨ ZeroMark s' := by
-  by_cases hz : ZeroMark s'
-  · exact Or.inr hz
-  left
-  obtain ⟨t, s1, g1, ht, hfold, rfl⟩ := stepGroup_ok hm
-  obtain ⟨ht1, ht2⟩ := head_time hall hne htime
-  have htT := ht1 t ht
-  rw [htT] at hfold hz ⊢
-  obtain ⟨σ1, L1, hsfold, hmoves⟩ := stepGroup_moves hs
-  rw [ht2] at hmoves
-  obtain ⟨hsim1, he⟩ := group_end2 hsim (Rat.le_refl) hall htime hfold hsfold hns hfr hnames
+    (hmoves : σ'.moves = (if mv && !(canonRows L1).isEmpty
+          then σ.moves ++ [{ time := 0, rows := canonRows L1 }] else σ.moves))
+    (hz : ¬ ZeroMark (applyParams 0 s1 g1)) :
+    MovesInv 0 (applyParams 0 s1 g1) σ' ∧ ∀ o ∈ ops,
+        o.2.2 ≠ 1 ∧ (o.1 ≤ s.numDemes → o.2.1 ≠ o.1 → o.2.2 = 0) := by
   obtain ⟨ap1, _, ap3, ap4⟩ := apFold 0 g1 g1.params s1
   have ap5 := apFold_joined 0 g1 g1.params s1
   -- no pulse was emitted
@@ -224,27 +213,33 @@ theorem first_group_zero {N0 : Q} {s s' : BState} {σ σ' : St} {evs : List (Eve
       · exact hst
     · rw [applyParams_eq, ap5, r4, hal]; rfl
   -- no population was joined
-  have hF3 : ∀ o ∈ groupOps s.numDemes (evs.map cmdOfD), o.2.2 ≠ 1 := by
+  have hF3 : ∀ o ∈ ops, o.2.2 ≠ 1 := by
     intro o ho hq
     obtain ⟨d, hd, hst⟩ := he.dJoin o ho hq
     exact hF2 _ d hd hst
-  -- every row of the matrix is the identity
-  have hRB : ReadBack (groupOps s.numDemes (evs.map cmdOfD))
-      (fun r => foldOps (groupOps s.numDemes (evs.map cmdOfD)) (delta r)) [] :=
-    ⟨he.nsat, fun o ho => ⟨(he.pos o ho).2.2.1, (he.pos o ho).2.2.2⟩, List.nodup_nil,
-      fun b hb => (by cases hb), fun b hb => (by cases hb)⟩
-  have hfil : (groupOps s.numDemes (evs.map cmdOfD)).filter (fun o => emitB g1 (o.1 - 1)) = [] := by
-    rw [List.filter_eq_nil_iff]
+  have hfrac : ∀ o ∈ ops, 0 ≤ o.2.2 ∧ o.2.2 ≤ 1 := fun o ho => ⟨(he.pos o ho).2.2.1, (he.pos o ho).2.2.2⟩
+  have hnoemit : ∀ o ∈ ops, emitB g1 (o.1 - 1) = false := by
     intro o ho
     have := hF1 (op0 o) (by rw [he.params]; exact List.mem_map.mpr ⟨o, ho, rfl⟩)
-    have e : (op0 o).1 = o.1 - 1 := rfl
-    rw [e] at this
-    simp [this]
+    exact this
+  -- every row of the matrix is the identity
+  have hfil : ops.filter (fun o => emitB g1 (o.1 - 1)) = [] := by
+    rw [List.filter_eq_nil_iff]
+    intro o ho
+    simp [hnoemit o ho]
   have hrow : ∀ ir ∈ L1, ∀ k, Row.get ir.2 k = delta ir.1 k := by
     intro ir hir k
     rw [he.rows ir hir k]
-    have hrb := readBack_row hRB ir.1 rfl (fun o ho _ hq => (hF3 o ho hq).elim)
-      (fun a => emitB g1 (a - 1)) (emit_iff he hir)
+    have hrb : foldBorn [] (foldOps (ops.filter (fun o => (fun a => emitB g1 (a - 1)) o.1)) (delta ir.1))
+        = foldOps ops (delta ir.1) := by
+      rcases he.frag with hns | h3
+      · exact readBack_row (F := fun r => foldOps ops (delta r)) (born := [])
+          ⟨hns, hfrac, List.nodup_nil, fun b hb => (by cases hb), fun b hb => (by cases hb)⟩
+          ir.1 rfl (fun o ho _ hq => (hF3 o ho hq).elim) (fun a => emitB g1 (a - 1)) (emit_iff he hir)
+      · exact readBack_row3 (F := fun r => foldOps ops (delta r)) (born := [])
+          ⟨h3.2, hfrac, List.nodup_nil, fun b hb => (by cases hb), fun b hb => (by cases hb)⟩
+          ir.1 rfl (fun o ho _ hq => (hF3 o ho hq).elim) (fun a => emitB g1 (a - 1))
+          (fun hem => ((emit_iff he hir).mp hem).1) (nonemit_trivial hsim he h3)
     rw [hfil] at hrb
     exact (congrFun hrb k).symm
   have hcan : canonRows L1 = [] :=
@@ -276,25 +271,30 @@ theorem first_group_zero {N0 : Q} {s s' : BState} {σ σ' : St} {evs : List (Eve
     intro o ho
     refine ⟨hF3 o ho, ?_⟩
     intro hle hne'
-    obtain ⟨o1, _, _, _⟩ := he.pos o ho
-    have hlt : o.1 - 1 < s.demes.length := by rw [hsim.len, ← hsim.num]; omega
-    have h0 := List.getElem?_eq_getElem hlt
-    obtain ⟨ir, hir, hkey⟩ := alive_key hsim he h0 (hinit _ _ h0).1
-    have hkey' : ir.1 = o.1 := by omega
-    have hFr : foldOps (groupOps s.numDemes (evs.map cmdOfD)) (delta o.1) = delta o.1 := by
-      funext k
-      rw [← hkey', ← he.rows ir hir k, hrow ir hir k]
-    rw [foldOps_own_delta o.1 _ he.nsat] at hFr
-    have hown : OwnOps o.1 ((groupOps s.numDemes (evs.map cmdOfD)).filter (fun o' => o'.1 = o.1)) := by
-      intro o' ho'
-      obtain ⟨h1, h2⟩ := List.mem_filter.mp ho'
-      exact ⟨by simpa using h2, (he.pos o' h1).2.2.1, (he.pos o' h1).2.2.2⟩
-    have hlt1 : ∀ o' ∈ (groupOps s.numDemes (evs.map cmdOfD)).filter (fun o' => o'.1 = o.1), o'.2.2 < 1 := by
-      intro o' ho'
-      have h1 := (List.mem_filter.mp ho').1
-      exact lt_of_le_of_ne (he.pos o' h1).2.2.2 (hF3 o' h1)
-    exact foldOps_own_fixed_q o.1 _ (delta o.1) hown hlt1 (delta_nonneg o.1) (by rw [delta_self]; decide)
-      (fun k _ => by rw [hFr]) o (List.mem_filter.mpr ⟨ho, by simp⟩) hne'
+    rcases he.frag with hns | h3
+    · obtain ⟨o1, _, _, _⟩ := he.pos o ho
+      have hlt : o.1 - 1 < s.demes.length := by rw [hsim.len, ← hsim.num]; omega
+      have h0 := List.getElem?_eq_getElem hlt
+      obtain ⟨ir, hir, hkey⟩ := alive_key hsim he h0 (hinit _ _ h0).1
+      have hkey' : ir.1 = o.1 := by omega
+      have hFr : foldOps ops (delta o.1) = delta o.1 := by
+        funext k
+        rw [← hkey', ← he.rows ir hir k, hrow ir hir k]
+      rw [foldOps_own_delta o.1 _ hns] at hFr
+      have hown : OwnOps o.1 (ops.filter (fun o' => o'.1 = o.1)) := by
+        intro o' ho'
+        obtain ⟨h1, h2⟩ := List.mem_filter.mp ho'
+        exact ⟨by simpa using h2, (he.pos o' h1).2.2.1, (he.pos o' h1).2.2.2⟩
+      have hlt1 : ∀ o' ∈ ops.filter (fun o' => o'.1 = o.1), o'.2.2 < 1 := by
+        intro o' ho'
+        have h1 := (List.mem_filter.mp ho').1
+        exact lt_of_le_of_ne (he.pos o' h1).2.2.2 (hF3 o' h1)
+      exact foldOps_own_fixed_q o.1 _ (delta o.1) hown hlt1 (delta_nonneg o.1) (by rw [delta_self]; decide)
+        (fun k _ => by rw [hFr]) o (List.mem_filter.mpr ⟨ho, by simp⟩) hne'
+    · rcases nonemit_trivial hsim he h3 o ho (hnoemit o ho) with ⟨o', ho', _, hq⟩ | h | h
+      · exact (hF3 o' ho' hq).elim
+      · exact (hne' h).elim
+      · exact h
   · intro m hmm
     rw [hmv] at hmm
     cases hmm
@@ -313,5 +313,30 @@ theorem first_group_zero {N0 : Q} {s s' : BState} {σ σ' : St} {evs : List (Eve
     rw [(hdem j D hD).2]
   · intro j D hD
     exact Or.inl (hdem j D hD).1
+
+/-- **the first time group, at time 0.**  From the initial state (every deme starts at `∞` and has
+its only epoch end at 0, no pulse, no movement recorded): after a group at time 0 that satisfies the
+first two clauses of `GoodGroup`, either the Builder state is marked (`ZeroMark`: `from_ms` will
+fail), or the invariant of the run holds: nothing was written, nothing was recorded. -/
+theorem first_group_zero {N0 : Q} {s s' : BState} {σ σ' : St} {evs : List (Event Num)}
+    (hsim : SizeSim 0 s σ) (hnames : NameInv s)
+    (hall : ∀ e ∈ evs, HasCmd e) (hne : evs ≠ []) (htime : ∀ e ∈ evs, 4 * N0 * (cmdOfD e).t = 0)
+    (hns : NSAT (groupOps s.numDemes (evs.map cmdOfD))) (hfr : ∀ e ∈ evs, FracOK (cmdOfD e))
+    (hinit : ∀ (j : Nat) (d : BDeme), s.demes[j]? = some d → d.startTime = .inf ∧ bEndTime d = 0)
+    (hpul : s.pulses.getD [] = []) (hmv0 : σ.moves = [])
+    (hm : Ms.stepGroup N0 s evs = .ok s') (hs : Spec.MsSem.stepGroup N0 σ (evs.map cmdOfD) = .ok σ') :
+    (MovesInv 0 s' σ' ∧ ∀ o ∈ groupOps s.numDemes (evs.map cmdOfD),
+        o.2.2 ≠ 1 ∧ (o.1 ≤ s.numDemes → o.2.1 ≠ o.1 → o.2.2 = 0)) ∨ ZeroMark s' := by
+  by_cases hz : ZeroMark s'
+  · exact Or.inr hz
+  left
+  obtain ⟨t, s1, g1, ht, hfold, rfl⟩ := stepGroup_ok hm
+  obtain ⟨ht1, ht2⟩ := head_time hall hne htime
+  have htT := ht1 t ht
+  rw [htT] at hfold hz ⊢
+  obtain ⟨σ1, L1, hsfold, hmoves⟩ := stepGroup_moves hs
+  rw [ht2] at hmoves
+  obtain ⟨hsim1, he⟩ := group_end2 hsim (Rat.le_refl) hall htime hfold hsfold hns hfr hnames
+  exact first_group_zero_core hsim hsim1 he hinit hpul hmv0 hmoves hz
 
 end Demes.Proofs.FromMs
